@@ -232,6 +232,26 @@ class SymNp:
         return np.prod(x, *a, **k)
 
     @staticmethod
+    def array(x, *a, **k):
+        from .sarr import SArr
+
+        if isinstance(x, SArr):  # np.array(block, copy=True): an independent array with the same content
+            return SArr(x.shape, x._at, x.dtype, x.log, x.kind, x.struct)
+        return np.array(x, *a, **k)
+
+    @staticmethod
+    def asarray(x, *a, **k):
+        from .sarr import SArr
+
+        return x if isinstance(x, SArr) else np.asarray(x, *a, **k)
+
+    @staticmethod
+    def asanyarray(x, *a, **k):
+        from .sarr import SArr
+
+        return x if isinstance(x, SArr) else np.asanyarray(x, *a, **k)
+
+    @staticmethod
     def max(x, *a, **k):
         if isinstance(x, (tuple, list)) and any(isinstance(v, (SymInt, SymReal)) for v in x) and not a and not k:
             return sym_max(*x)
@@ -254,6 +274,18 @@ class SymNp:
                 out.append(s)
             return out
         return np.cumsum(x, *a, **k)
+
+
+class ConcNp:
+    """numpy as seen by cloned code in *concrete* replays of harnesses that execute graphs on symbolic-array
+    objects (with concrete sizes): only the array-coercion entry points know about SArr"""
+
+    array = staticmethod(SymNp.array)
+    asarray = staticmethod(SymNp.asarray)
+    asanyarray = staticmethod(SymNp.asanyarray)
+
+    def __getattr__(self, k):
+        return getattr(np, k)
 
 
 class SymSet:
@@ -694,6 +726,8 @@ class World:
                     ns["cached_cumsum"] = pure_cached_cumsum
                 if "is_integer" in ns and getattr(ns["is_integer"], "__module__", "") == "dask.utils":
                     ns["is_integer"] = sym_is_integer
+            if self.space is not None and not symbolic and ns.get("np") is np:
+                ns["np"] = ConcNp()
             if self.space is not None:
                 from .nodes import sym_tokenize
 
